@@ -304,7 +304,7 @@ impl Factors {
                     factors,
                     "Recursos ahorrados a la red por la energía producida in situ y exportada a usos no EPB",
                 );
-            } else {
+            } else if wf_carriers.contains(c) {
                 return Err(EpbdError::MissingFactor(format!("{}, SUMINISTRO, A", c)));
             }
         }
